@@ -325,11 +325,61 @@ pub fn run(ctx: &Ctx) -> i32 {
             ctx.violation("logging", &format!("with a trace-level logger installed: {}", w), json!({"kind": "logging"}));
         }
     }
+    // call sequences: the four functions are pure, so their results must not depend on which of them ran just before
+    // (a memo or scratch state shared between calls or between the 32- and the 64-bit pair shows here)
+    let mut n_seq = 0u64;
+    {
+        let vals: Vec<u64> = (0u64..(1 << 12)).chain((0..32).map(|s| 1u64 << s)).chain((0..32).map(|s| (1u64 << s) - 1)).chain([u32::MAX as u64, 0x4000_8001, 0xffff_0000]).collect();
+        let mut bad: Option<String> = None;
+        'outer: for &v in &vals {
+            let v32 = v as u32;
+            // reference values, each computed after an unrelated call
+            let _ = int64_hash_inverse(0x1234_5678_9abc_def0);
+            let r32 = int32_hash_inverse(v32);
+            let _ = int32_hash_inverse(0x1357_9bdf);
+            let r64 = int64_hash_inverse(v);
+            let _ = int64_hash(0xdead_beef);
+            let f32_ = int32_hash(v32);
+            let _ = int32_hash(0xdead_beef);
+            let f64_ = int64_hash(v);
+            type F = (&'static str, fn(u64) -> u64);
+            let fs: [F; 4] = [
+                ("int32_hash_inverse", |x| int32_hash_inverse(x as u32) as u64),
+                ("int64_hash_inverse", int64_hash_inverse),
+                ("int32_hash", |x| int32_hash(x as u32) as u64),
+                ("int64_hash", int64_hash),
+            ];
+            let want = [r32 as u64, r64, f32_ as u64, f64_];
+            for (i, (ni, fi)) in fs.iter().enumerate() {
+                for (j, (nj, fj)) in fs.iter().enumerate() {
+                    n_seq += 1;
+                    let a = fi(v);
+                    let b = fj(v);
+                    // a third call with a neighbouring argument in between two equal calls
+                    let _ = fi(v ^ 1);
+                    let c = fj(v);
+                    if a != want[i] || b != want[j] || c != want[j] {
+                        bad = Some(format!("{}({:#x}) directly followed by {}({:#x}) returns {:#x} / {:#x} (again after {}({:#x}): {:#x}); each alone returns {:#x} / {:#x}", ni, v, nj, v, a, b, ni, v ^ 1, c, want[i], want[j]));
+                        break 'outer;
+                    }
+                }
+            }
+            if int64_hash(r64) != v || int32_hash(r32) != v32 {
+                bad = Some(format!("round trip of {:#x} fails", v));
+                break;
+            }
+        }
+        if let Some(w) = bad {
+            ctx.violation("call-sequence", &w, json!({"kind": "call-sequence"}));
+        }
+    }
     ctx.sample(json!({"u32": "0x40008001", "int32_hash": format!("{:#x}", int32_hash(0x40008001)), "int32_hash_inverse_of_that": format!("{:#x}", int32_hash_inverse(int32_hash(0x40008001)))}));
     ctx.sample(json!({"u64": "0xfffffffffffffffe", "int64_hash": format!("{:#x}", int64_hash(0xfffffffffffffffe)), "int64_hash_inverse_of_that": format!("{:#x}", int64_hash_inverse(int64_hash(0xfffffffffffffffe)))}));
     println!("C19 32-bit: {} values (complete domain); 64-bit: {} structured values", n32, n64);
     let coverage = json!({
-        "evaluations": n32 + n64,
+        "evaluations": n32 + n64 + n_seq,
+        "call_sequences": n_seq,
+        "call_sequence_rule": "for 4 163 arguments below 2^32 every ordered pair of the four functions is called back to back on the same number (and once more after a call on a neighbouring number): each result must equal the one obtained after an unrelated call",
         "distinct_nontrivial": n32,
         "rule": "32-bit pair: every one of the 2^32 arguments, both compositions (exhaustive; each value is a distinct case). 64-bit pair: complete structured sub-domains (consecutive blocks, a<<s, <=4 (5) bits set/cleared, carry chains, orbits, and values that are structured at one of the stage boundaries inside the mix), both compositions; the first 2^16 values and all one-bit / all-but-one-bit words are repeated with a trace-level logger installed; distinct_nontrivial counts only the 32-bit values, which are distinct by construction",
         "samples": [{"u32": "0x00000000"}, {"u32": "0xffffffff"}, {"u64": "0x0000000100000000"}, {"u64": "0xfffffffffffffffe"}, {"u64_pattern": "(1<<63)-(1<<21)+5"}],
